@@ -3,6 +3,7 @@ package storage
 import (
 	"context"
 	"errors"
+	"fmt"
 	"sort"
 	"time"
 
@@ -161,6 +162,11 @@ func (s *Store) ReadFilter(ctx context.Context, req *datatypes.ReadFilterRequest
 func (s *Store) ReadGroup(ctx context.Context, req *datatypes.ReadGroupRequest) (reads.GroupResultSet, error) {
 	if req.ReadSource == nil {
 		return nil, errors.New("missing read source")
+	}
+
+	// reads.NewGroupResultSet panics on any other group type.
+	if req.Group != datatypes.GroupBy && req.Group != datatypes.GroupNone {
+		return nil, fmt.Errorf("unsupported group type: %v", req.Group)
 	}
 
 	source, err := GetReadSource(*req.ReadSource)
